@@ -53,7 +53,9 @@ static JOINS_SEEN: std::sync::atomic::AtomicU32 = std::sync::atomic::AtomicU32::
 static REVIVE: std::sync::atomic::AtomicBool = std::sync::atomic::AtomicBool::new(false);
 const WRITER: usize = 0;
 const DROPPER: usize = 1;
-const WAIT: Duration = Duration::from_secs(8);
+// generous: a loaded machine (the thorough tier running next to other builds) once left a parked thread unscheduled for
+// more than 8 s and the run reported a deadlock that was not there; a real deadlock is still reported, 30 s later
+const WAIT: Duration = Duration::from_secs(30);
 const BIG_BASE: u32 = 100;
 const BIG_MAX: u32 = 4000;
 
